@@ -93,6 +93,11 @@ func ChunkMatchFromProto(p *webserverv1.ChunkMatch) ChunkMatch {
 	symbols := make([]*Symbol, len(p.GetSymbolInfo()))
 	for i, r := range p.GetSymbolInfo() {
 		symbols[i] = SymbolFromProto(r)
+		// A nil element ("this range is not a symbol") cannot be sent as such:
+		// it arrives as an empty message. Turn it back into nil.
+		if s := symbols[i]; s != nil && *s == (Symbol{}) {
+			symbols[i] = nil
+		}
 	}
 
 	return ChunkMatch{
